@@ -10,6 +10,8 @@ from harness import common as C
 from harness import arrays as AR
 
 THEOREMS = {
+    'RsomeV.Props.C05Expr': ['RsomeV.C05Expr.compile_correct', 'RsomeV.C05Expr.compile_shape', 'RsomeV.C05Expr.compile_isSome_iff',
+                              'RsomeV.C05Expr.denote_shape', 'RsomeV.C05Expr.compile_ncols', 'RsomeV.C05Expr.denote_affine'],
     'RsomeV.Props.C05': [
         'RsomeV.C05.ravel_unravel', 'RsomeV.C05.unravel_ravel', 'RsomeV.C05.ravel_lt',
         'RsomeV.C05.bcastFlat_spec', 'RsomeV.C05.bcastFlat_spec_right', 'RsomeV.C05.broadcastShapes_dims',
@@ -116,6 +118,8 @@ def matmul_probe(ctx):
 
 
 def run(ctx):
+    # the expression language of Props/C05Expr (compile_correct): the Lean compiler vs the real API, linear and constant parts entry by entry
+    C.run_difftest(ctx, 'test_aff_expr.py', ctx.n(400, 6000), 'array algebra: compiled (linear, const) of random expression trees')
     matmul_probe(ctx)
     for k in range(ctx.n(2500, 60000)):
         seed = int(ctx.rng.integers(2 ** 31))
